@@ -67,6 +67,20 @@ func e2Bases() []e2Base {
 				p.sendMsg(1, 30, 1)
 				return true
 			}},
+			e2Base{"est-unread/" + tag, false, il, func(p *scripted) bool {
+				if !est(p) {
+					return false
+				}
+				// two complete fragmented messages are received but not read yet
+				s, err := p.a.OpenStream(1, PayloadTypeWebRTCBinary)
+				if err != nil {
+					return false
+				}
+				p.m.streamsSeen = append(p.m.streamsSeen, s)
+				p.unread = s
+				p.unreadWant = []string{string(p.sendMsg(1, 60, 2)), string(p.sendMsg(1, 61, 2))}
+				return true
+			}},
 			e2Base{"est-inflight/" + tag, true, il, func(p *scripted) bool {
 				if !est(p) {
 					return false
@@ -230,6 +244,12 @@ func hostileAlphabet(p *scripted) []hostilePkt {
 		}
 		add(fmt.Sprintf("DATA/tsn=%s/ssn-far", t.n), t.ignore, p.dataChunk(t.v, 1, seq+40000, 0, 53, 3, []byte("far-ssn"), 0))
 		add(fmt.Sprintf("DATA/tsn=%s/ssn-old", t.n), t.ignore, p.dataChunk(t.v, 1, seq-1, 0, 53, 3, []byte("old-ssn"), 0))
+		if t.n == "expected" || t.n == "+2" {
+			// a further fragment for the most recent message, which may be complete already
+			for _, fl := range []uint8{0, 1, 2} {
+				add(fmt.Sprintf("DATA/tsn=%s/ssn-old/fl=%d", t.n, fl), t.ignore, p.dataChunk(t.v, 1, seq-1, 7, 53, fl, []byte("old-ssn-frag"), 0))
+			}
+		}
 		add(fmt.Sprintf("DATA/tsn=%s/newstream", t.n), t.ignore, p.dataChunk(t.v, 999, 0, 0, 53, 3, []byte("new-stream"), 0))
 	}
 	add("DATA/empty", false, p.dataChunk(peerLast+1, 1, seq, 0, 53, 3, nil, 0))
@@ -424,6 +444,30 @@ func c03Continue(m *Sim, p *scripted, spec *c03Spec, honestBefore map[uint16]int
 		return
 	}
 	p.a = a
+	if p.unread != nil && a.getState() == established {
+		// messages that had been received completely before the hostile packets arrived are
+		// still delivered, intact and in order (hostile chunks may add garbage behind them)
+		buf := make([]byte, 70000)
+		var got []string
+		for len(got) < len(p.unreadWant)+4 && p.unread.reassemblyQueue.isReadable() {
+			n, _, err := p.unread.ReadSCTP(buf)
+			if err != nil {
+				break
+			}
+			got = append(got, string(buf[:n]))
+		}
+		// the honest messages form a subsequence of what is read (hostile chunks may have put
+		// complete messages of their own on the stream, e.g. unordered ones, which come first)
+		k := 0
+		for _, g := range got {
+			if k < len(p.unreadWant) && g == p.unreadWant[k] {
+				k++
+			}
+		}
+		if k < len(p.unreadWant) {
+			m.Failf("hostile.destroyed", "message %d of stream 1 had been received completely (and acknowledged) before the hostile packets; afterwards it is no longer readable intact (%d messages read)", k, len(got))
+		}
+	}
 	if a.getState() != established {
 		m.Observe("state=%s", getAssociationStateString(a.getState()))
 		return
